@@ -167,6 +167,46 @@ func moranFormula(x, w []float64, n int) moranRef {
 	return res
 }
 
+// moranSparseKnown is Var(I) as the recorded defects of GlobalMoransI make it
+// come out for a locality matrix that implements mat.RowNonZeroDoer: S0, S1
+// and S2 visit only the pairs with w_ij != 0 and the kurtosis is not
+// multiplied by n.
+func moranSparseKnown(x, w []float64, n int) float64 {
+	mean := 0.0
+	for _, v := range x {
+		mean += v
+	}
+	mean /= float64(n)
+	var s0, s1, s2, var2, var4 float64
+	for i, v := range x {
+		v -= mean
+		v *= v
+		var2 += v
+		var4 += v * v
+		var p2 float64
+		for j := 0; j < n; j++ {
+			wij := w[i*n+j]
+			if wij == 0 {
+				continue
+			}
+			wji := w[j*n+i]
+			s0 += wij
+			t := wij + wji
+			s1 += t * t
+			p2 += t
+		}
+		s2 += p2 * p2
+	}
+	s1 *= 0.5
+	nf := float64(n)
+	e := -1 / (nf - 1)
+	a := nf * ((nf*nf-3*nf+3)*s1 - nf*s2 + 3*s0*s0)
+	cc := (nf - 1) * (nf - 2) * (nf - 3) * s0 * s0
+	d := var4 / (var2 * var2)
+	b := d * ((nf*nf-nf)*s1 - 2*nf*s2 + 6*s0*s0)
+	return (a-b)/cc - e*e
+}
+
 func checkSpatial(c spatialCase) *vk.Failure {
 	n := c.N
 	nf := float64(n)
@@ -245,7 +285,15 @@ func checkSpatial(c spatialCase) *vk.Failure {
 			if n >= 4 && ref.okV && (!closeTo(bv, gv, tv) || !closeTo(bz, gz, 2*ref.tolZ+1e-9*math.Abs(gz))) {
 				f := vk.Failf("morans-variance-representation", "band operand: v=%v z=%v; Dense operand with the same entries: v=%v z=%v %s", bv, bz, gv, gz, ctx)
 				if c.Kind == 3 {
-					f.Key = "morans-variance-asymmetric-sparse"
+					// Known finding, modelled exactly so that it does not hide other
+					// defects of the sparse path: S1 and S2 are accumulated over the
+					// pairs (i,j) with w_ij != 0 only (and the kurtosis term lacks its
+					// factor n, the other recorded finding).
+					if known := moranSparseKnown(x, w, n); closeTo(bv, known, tv+1e-9*math.Abs(known)) {
+						f.Key = "morans-variance-asymmetric-sparse"
+					} else {
+						f = vk.Failf("morans-variance-asymmetric-sparse-other", "band operand: v=%v; Dense operand with the same entries: v=%v; the recorded defect of the sparse path would give %v %s", bv, gv, known, ctx)
+					}
 				}
 				if deferred == nil || deferred.Key == "morans-variance" {
 					deferred = f
